@@ -26,3 +26,28 @@ fn cbr_rejects_bad_p_f64() {
     let _r = s.confidence_band_radius(p);
     kani::cover!(true, "confidence_band_radius returned for a rejected probability");
 }
+
+/// bounded validation of `concat_colwise`: [left | right] column placement (2 x 2 and 2 x 1)
+#[kani::proof]
+#[kani::unwind(6)]
+fn concat_colwise_2x2_2x1() {
+    let a: [u64; 4] = kani::any();
+    let b: [u64; 2] = kani::any();
+    let l = DMatrix::from_column_slice(2, 2, &a);
+    let r = DMatrix::from_column_slice(2, 1, &b);
+    let c = super::concat_colwise(l.clone(), r.clone());
+    assert!(c.nrows() == 2 && c.ncols() == 3);
+    let i: usize = kani::any();
+    kani::assume(i < 2);
+    assert!(c[(i, 0)] == l[(i, 0)] && c[(i, 1)] == l[(i, 1)] && c[(i, 2)] == r[(i, 0)]);
+}
+
+/// bounded validation of `extract_range`: the half-open range [1, 3) of a 4-vector
+#[kani::proof]
+#[kani::unwind(6)]
+fn extract_range_1_3_of_4() {
+    let a: [u64; 4] = kani::any();
+    let v = DVector::from_column_slice(&a);
+    let r = super::extract_range(&v, nalgebra::Dyn(1), nalgebra::Dyn(3));
+    assert!(r.len() == 2 && r[0] == a[1] && r[1] == a[2]);
+}
